@@ -187,8 +187,59 @@ func (x *Exec) specExpr(s *State, fr *Frame, e ast.Expr) Value {
 	defer func() { x.spec--; x.noObl-- }()
 	// spec evaluation must not disturb the state
 	t := s.fork()
+	np, nf := len(t.pc), len(t.facts)
 	v := x.expr(t, fr, e)
+	x.adopt(s, t, np, nf, nil, nil)
 	return v
+}
+
+// adopt carries the hypotheses learned while a contract expression was evaluated
+// in the forked state t (well-formedness of values loaded from memory, the
+// postconditions of pure calls: facts that hold of the terms they mention, not
+// decisions of the program) back into s. np and nf are the lengths of t.pc and
+// t.facts before the evaluation. A guard makes them conditional (right operand of
+// && or ||); binders closes them over the bound variables of a quantifier.
+func (x *Exec) adopt(s, t *State, np, nf int, guard *Term, binders []Term) {
+	var fs []Term
+	if np <= len(t.pc) {
+		fs = append(fs, t.pc[np:]...)
+	}
+	if nf <= len(t.facts) {
+		fs = append(fs, t.facts[nf:]...)
+	}
+	for _, f := range fs {
+		if guard != nil {
+			f = Implies(*guard, f)
+		}
+		var bs []string
+		for _, b := range binders {
+			if mentionsSym(f.S, b.S) {
+				bs = append(bs, fmt.Sprintf("(%s %s)", b.S, b.Sort))
+			}
+		}
+		if len(bs) > 0 {
+			f = Term{S: fmt.Sprintf("(forall (%s) %s)", strings.Join(bs, " "), f.S), Sort: SBool}
+		}
+		s.assume(f)
+	}
+	for k := range t.embSeen {
+		s.embSeen[k] = true
+	}
+}
+
+// mentionsSym reports whether the SMT text s mentions the symbol sym as a token.
+func mentionsSym(s, sym string) bool {
+	for i := 0; ; {
+		j := strings.Index(s[i:], sym)
+		if j < 0 {
+			return false
+		}
+		e := i + j + len(sym)
+		if e >= len(s) || !(s[e] >= '0' && s[e] <= '9' || s[e] >= 'a' && s[e] <= 'z' || s[e] >= 'A' && s[e] <= 'Z' || s[e] == '_' || s[e] == '!' || s[e] == '?' || s[e] == '$' || s[e] == '.') {
+			return true
+		}
+		i = e
+	}
 }
 
 func (x *Exec) exprMulti(s *State, fr *Frame, e ast.Expr, n int) Value {
@@ -907,9 +958,15 @@ func (x *Exec) binary(s *State, fr *Frame, n *ast.BinaryExpr) Value {
 		} else {
 			sb.assume(Not(a))
 		}
-		before := len(x.obls)
+		bnp, bnf := len(sb.pc), len(sb.facts)
 		b := x.cond(sb, fr, n.Y)
-		_ = before
+		if x.spec > 0 {
+			g := a
+			if n.Op == token.LOR {
+				g = Not(a)
+			}
+			x.adopt(s, sb, bnp, bnf, &g, nil)
+		}
 		if x.spec == 0 && stateChanged(s, sb) {
 			// the right operand had side effects: merge them back conditionally
 			rest := s.fork()
@@ -967,7 +1024,13 @@ func (x *Exec) binop(s *State, fr *Frame, op token.Token, l, r Value, lt, rt typ
 		}
 		ls, lok := l.(*SliceV)
 		rs, rok := r.(*SliceV)
+		lp, lpok := l.(*PtrV)
+		rp, rpok := r.(*PtrV)
 		switch {
+		case lpok && rpok && rp.Rgn.IsC && rp.Rgn.C == 0:
+			eq = Eq(lp.Rgn, I64(0)) // p == nil: the nil pointer is region 0
+		case lpok && rpok && lp.Rgn.IsC && lp.Rgn.C == 0:
+			eq = Eq(rp.Rgn, I64(0))
 		case lok && rok:
 			// slice compared with nil
 			if isNilType(lt) {
